@@ -214,6 +214,7 @@ var hostileLines = map[string][]string{
 		"{\\an8", "{\\an", "{\\a", "{\\", "{", "x{\\an8", "{\\an8<i>}", "{\\an0}", "{\\an8}", "&amp", "&#", "&#x", "&#;", "&nbsp", "<font", "<font ", "<font color", "<font color=\"#ff", "<i", "</i", "<i>{\\an"},
 	"vtt": {"00:00:01.000 -->", "--> 00:00:02.000", "-->", "00:00:01.000 --> x", "WEBVTT", "Region: id", "Region: =", "Region: id=a lines=x", "Region: ", "X-TIMESTAMP-MAP=", "X-TIMESTAMP-MAP", "X-TIMESTAMP-MAP=LOCAL:x,MPEGTS:y",
 		"X-TIMESTAMP-MAP=LOCAL", "STYLE", "NOTE ", "NOTE", "00:00:01.000 --> 00:00:02.000 region:none", "00:00:01.000 --> 00:00:02.000 align", "00:00:01.000 --> 00:00:02.000 :", "<v>", "<v ", "</v></v></c>", "<c.>", "<.>", "< >", "<00:00:01.000>", "<99:99:99.999>x", "<>", "\xff",
+		"REGION", "REGION\nid", "REGION\nid:fred\nwidth", "REGION\nid:fred width:40% lines", "REGION\n:", "REGION\nid:", "REGION\nscroll", "regionanchor:0%,100%", "viewportanchor:", "STYLE\n::cue {", "STYLE\n", "NOTE\n-->", "NOTE\nx\n00:00:01.000 --> 00:00:02.000",
 		"<c.a", "<c.", "<v Bob", "<v", "<00:00:01", "<00:", "&amp", "&nb", "&#", "{\\an8", "</", "</c", "<ruby><rt", "x<", "x<v A>y</v", "<lang en"},
 	"ssa": {"Format:", "Format: ", "Format: Text", "Dialogue:", "Dialogue: ", "Dialogue: ,,,,,,,,,", "Style:", "Style: a", "Style: a,b,c,d,e,f,g,h,i,j,k,l,m,n,o,p,q,r,s,t,u,v,w,x,y,z", "[Events]", "[V4 Styles]", "[V4+ Styles]", "[Script Info]", "[", "]", "[]",
 		"PlayResX: x", "Timer: ,", ":", "::", "; ", "Dialogue: Marked=0,0:00:00.00,x,,,0,0,0,,t", "Dialogue: 0,9999999999999999999:00:00.00,0:00:01.00,,,0,0,0,,t", "Dialogue: 0,0:00:00.00,0:00:01.00,*,,0,0,0,,{", "Dialogue: 0,0:00:00.00,0:00:01.00,,,a,b,c,,t",
@@ -395,10 +396,10 @@ func hostileTS(t *rapid.T) ([]byte, readOpts) {
 		m.packets(0, psiSection(0, 1, []byte{0, 1, 0xe0 | byte(pmtPID>>8), byte(pmtPID & 0xff)}))
 	case 2: // PMT without any teletext stream
 		m.packets(0, psiSection(0, 1, []byte{0, 1, 0xe0 | byte(pmtPID>>8), byte(pmtPID & 0xff)}))
-		m.packets(pmtPID, psiSection(2, 1, pmtBody(videoPID, []esEntry{{0x02, videoPID, false}})))
+		m.packets(pmtPID, psiSection(2, 1, pmtBody(videoPID, []esEntry{{0x02, videoPID, false, 0}})))
 	default:
 		m.packets(0, psiSection(0, 1, []byte{0, 1, 0xe0 | byte(pmtPID>>8), byte(pmtPID & 0xff)}))
-		m.packets(pmtPID, psiSection(2, 1, pmtBody(ttxPID, []esEntry{{0x06, ttxPID, true}})))
+		m.packets(pmtPID, psiSection(2, 1, pmtBody(ttxPID, []esEntry{{0x06, ttxPID, true, rapid.IntRange(0, 4).Draw(t, "desckind")}})))
 	}
 	sel := ttxHeader{Mag: s.Mag, Tens: s.Tens, Units: s.Units, Subtitle: true, Erase: true, Serial: s.Serial}
 	n := rapid.IntRange(1, 6).Draw(t, "npes")
